@@ -118,7 +118,8 @@ def _range_tabulate(ctx, m) -> bool | None:
         funcs = {st.name: st for st in m.top() if isinstance(st, ast.FunctionDef)}
         glob = {"operator": minieval.Stub(le=operator.le, ge=operator.ge, lt=operator.lt, gt=operator.gt), "Iterator": None,
                 "datetime": _dt.datetime, "date": _dt.date, "timezone": _dt.timezone, "timedelta": _dt.timedelta}
-        for (wa, fa), (wb, fb), unit, amt in [((D(2021, 10, 31, 1, 45), 0), (D(2021, 10, 31, 2, 15), 1), "minutes", 30), ((D(2021, 10, 31, 0, 30), 0), (D(2021, 10, 31, 4, 30), 0), "hours", 1),
+        for (wa, fa), (wb, fb), unit, amt in [((D(2300, 5, 6, 7, 8, 9, 1), 0), (D(2300, 5, 6, 7, 8, 9, 4), 0), "microseconds", 1), ((D(9000, 1, 1, 0, 0, 0, 999998), 0), (D(9000, 1, 1, 0, 0, 1, 0), 0), "microseconds", 1),
+                                               ((D(2021, 10, 31, 1, 45), 0), (D(2021, 10, 31, 2, 15), 1), "minutes", 30), ((D(2021, 10, 31, 0, 30), 0), (D(2021, 10, 31, 4, 30), 0), "hours", 1),
                                                ((D(2021, 10, 31, 2, 30), 0), (D(2021, 10, 31, 2, 30), 1), "minutes", 20), ((D(2021, 10, 31, 2, 50), 0), (D(2021, 10, 31, 2, 10), 1), "minutes", 7),
                                                ((D(2021, 10, 31, 2, 10), 1), (D(2021, 10, 31, 3, 40), 0), "minutes", 45)]:
             A, B = wld.datetime(wa, fa), wld.datetime(wb, fb)
@@ -146,7 +147,7 @@ def _range_tabulate(ctx, m) -> bool | None:
                 wk = [(w_, f_ if wld.ambiguous(w_) else 0) for w_, f_ in want]
                 if gk != wk:
                     show = lambda xs: [f"{w_.time()}{'*' if f_ else ''}" for w_, f_ in xs][:7]      # noqa: E731
-                    bad.append(f"interval {wa.time()}{'*' if fa else ''} .. {wb.time()}{'*' if fb else ''} of 2021-10-31, hour 02 repeated (* = second pass) ({mode}).range({unit!r}, {amt}): "
+                    bad.append(f"interval {wa.time()}{'*' if fa else ''} .. {wb.time()}{'*' if fb else ''} of {wa.date()} in a zone whose hour 02 of 2021-10-31 is repeated (* = second pass) ({mode}).range({unit!r}, {amt}): "
                                f"{show(gk)} ({len(gk)} values; expected {show(wk)}, {len(wk)} values)")
     except wallstub.ERRORS + (ValueError,) as e:
         ctx.unverified("RANGE.tabulated", "Interval.range", f"outside the checker's interpreter: {type(e).__name__}: {e}", m.loc(meths["range"]))
@@ -162,6 +163,8 @@ def run(ctx) -> None:
     ctx.explanation = EXPLANATION
     m = pmod("interval")
     ctx.step(_range_tabulate, ctx, m)
+    from . import C05
+    ctx.step(C05._instant_order, ctx)         # range() orders its bounds with _is_after: instants, exactly
     fn = m.func("Interval.range")
     loops = [n for n in core.walk_fn(fn) if isinstance(n, ast.While)]
     # a loop written as `while True:` with an early exit, or a direction taken from a helper, is another shape of the same
